@@ -115,6 +115,29 @@ def createContext (rngState : Int) : Ctx
   | .rng_state => cst rngState
   | _ => cst 0
 
+/-- members of `struct smix_data` (the sound-effect mixer session) -/
+def SmixField : Field → Bool
+  | .smix_chn | .smix_ins | .smix_smp | .smix_xxi | .smix_xxs => true
+  | _ => false
+
+/-- `xmp_end_smix` (src/smix.c): refused while playing; otherwise the slots are released, both tables freed
+and every member of `smix_data` returns to the value `xmp_create_context` gave it. -/
+def endSmix (s : Ctx) : Ctx :=
+  if s .state 0 > K.XMP_STATE_LOADED then s else fun f => match f with
+  | .smix_chn | .smix_ins | .smix_smp => cst 0
+  | .smix_xxi | .smix_xxs => null
+  | f => s f
+
+/-- successful `xmp_start_smix chn smp` (arguments in range, allocations succeed): refused while playing; a
+session that is still open is closed first; `tables` stands for the digest of two zeroed tables. -/
+def startSmix (chn smp : Int) (tables : Field → Int) (s : Ctx) : Ctx :=
+  if s .state 0 > K.XMP_STATE_LOADED then s else fun f => match f with
+  | .smix_chn => cst chn
+  | .smix_ins | .smix_smp => cst smp
+  | .smix_xxi => ptr (tables .smix_xxi)
+  | .smix_xxs => ptr (tables .smix_xxs)
+  | f => endSmix s f
+
 /-- `libxmp_load_prologue`.  C integer division truncates: `Int.tdiv`. -/
 def prologue (s : Ctx) : Ctx
   | .m_mod_name | .m_mod_type => cst 0
